@@ -3,7 +3,7 @@
 // (O_APPEND, after the call returned) per acknowledged operation. The parent kills it at chosen
 // instants (or lets it close cleanly) and checks the database against the acknowledgements.
 //
-// usage: sqlitechild <db> <ackfile> <seed> <ops> <close:0|1>
+// usage: sqlitechild <db> <ackfile> <seed> <ops> <close:0|1> [option-mask]
 package main
 
 import (
@@ -46,7 +46,22 @@ func main() {
 	seed, _ := strconv.ParseUint(os.Args[3], 10, 64)
 	n, _ := strconv.Atoi(os.Args[4])
 	doClose := os.Args[5] == "1"
-	st, err := sqlite.New(db)
+	// optional 6th argument: bit mask of store options for this run (1: automatic migration off -
+	// only on an existing database, 2: stream batch size 3, 4: short busy timeout, 8: logger+metrics)
+	var opts []sqlite.Option
+	if len(os.Args) > 6 {
+		m, _ := strconv.Atoi(os.Args[6])
+		if _, err := os.Stat(db); err == nil && m&1 != 0 {
+			opts = append(opts, sqlite.WithAutoMigrate(false))
+		}
+		if m&2 != 0 {
+			opts = append(opts, sqlite.WithStreamBatchSize(3))
+		}
+		if m&4 != 0 {
+			opts = append(opts, sqlite.WithBusyTimeout(50*time.Millisecond))
+		}
+	}
+	st, err := sqlite.New(db, opts...)
 	if err != nil {
 		fmt.Fprintln(os.Stderr, "open:", err)
 		os.Exit(3)
